@@ -420,6 +420,44 @@ def comp_opts_hostile_stage(work, rep, ev, tier, tools):
     return n
 
 
+def deep_image_stage(work, rep, ev, tier):
+    """valid images with very deep directory nesting (one chain of n directories, written by gensquashfs itself): the readers build and walk the
+    tree recursively.  Plain build, stack limit pinned to the usual 8 MiB so that the outcome is the same in every environment."""
+    import resource
+    tools = build.build("plain") + "/bin"
+    lim = lambda: resource.setrlimit(resource.RLIMIT_STACK, (8 << 20, 8 << 20))
+    n_runs = 0
+    for n in (2000, 200000):
+        pf = "%s/deep%d.txt" % (work, n)
+        open(pf, "w").write("dir " + "/".join(["a"] * n) + " 0755 0 0\n")
+        img = "%s/deep%d.sqfs" % (work, n)
+        q = subprocess.run([tools + "/gensquashfs", "-q", "-f", "-F", pf, img], capture_output=True, timeout=300, preexec_fn=lim)
+        if q.returncode != 0:
+            raise RuntimeError("cannot pack the nesting image %d: %s" % (n, q.stderr[-200:]))
+        un = "%s/deep_un%d" % (work, n)
+        for name, cmd in (("rdsquashfs-list", ["rdsquashfs", "-l", "/", img]), ("rdsquashfs-describe", ["rdsquashfs", "-d", img]),
+                          ("rdsquashfs-stat", ["rdsquashfs", "-s", "a/a/a", img]), ("rdsquashfs-unpack", ["rdsquashfs", "-q", "-u", "/a/a", "-p", un, img]),
+                          ("sqfsdiff", ["sqfsdiff", "-a", img, "-b", img])):
+            if name == "rdsquashfs-unpack" and n > 2000:
+                continue                                  # 200 000 nested directories on the host: not worth the disk churn; the tree is read the same way as for -d
+            try:
+                p = subprocess.run([tools + "/" + cmd[0]] + cmd[1:], stdout=subprocess.DEVNULL, stderr=subprocess.PIPE, timeout=300, preexec_fn=lim)
+                rc = p.returncode
+            except subprocess.TimeoutExpired:
+                rc = 124
+            n_runs += 1
+            if rc < 0 or rc in (134, 139):
+                rep.violation("reader-%s-signal-nesting-%d" % (name, n), "%s on a VALID image with %d nested directories (written by gensquashfs): dies on signal %d - stack exhaustion "
+                              "in the recursive tree reader / walker" % (name, n, -rc if rc < 0 else rc - 128), data={"components": n, "invocation": cmd[:-1]})
+            elif rc == 124:
+                rep.violation("reader-%s-hang-nesting-%d" % (name, n), "%s on a valid image with %d nested directories does not finish within 300 s" % (name, n), data={"components": n})
+        subprocess.run(["rm", "-rf", un])                 # (shutil.rmtree is recursive as well)
+        for f in (pf, img):
+            os.unlink(f)
+    ev.set("deep_nesting_reader_runs", n_runs)
+    return n_runs
+
+
 def run(tier):
     ev = Evidence(PID, tier, "exploration")
     rep = Reporter(PID, ev)
@@ -549,6 +587,7 @@ def run(tier):
         ev.write()
         return 2
     evaluations += hn
+    evaluations += deep_image_stage(work, rep, ev, tier)
     ev.set("evaluations", evaluations)
     ev.set("distinct_nontrivial", len(outcomes) + nflip)
     ev.set("rule", "structured: every plan with one corrupted field and %s plans with two (of %d), each encoded as an image and given to 9 tool invocations; "
